@@ -20,21 +20,25 @@ ASSUMPTIONS = ["type of comparison / logical results is not asserted (only expli
 
 
 def budget(tier):
-    return {"examples": 1600 if tier == "quick" else 30000, "wall_s": 110 if tier == "quick" else 1500}
+    return {"examples": 2400 if tier == "quick" else 30000, "wall_s": 110 if tier == "quick" else 1500}
 
 
 @st.composite
 def strategy_(draw, tier):
     early = not known.active("pool-ignores-explicit-vanilla-signals")
     linear = known.active("shared-network-leak")
-    if draw(st.integers(0, 6)) == 0:
+    kind = draw(st.integers(0, 7))
+    if kind == 0:
         prog = draw(gen.scalar_with_consumers(early_virtual=early, linear=linear))
+    elif kind == 1:
+        # repeated / operand-swapped sub-expressions: what CSE may and may not merge, judged absolutely
+        prog = draw(gen.cse_program(early_virtual=early))
     else:
         prog = draw(gen.scalar_program(early_virtual=early, linear=linear))
     names = list(lang.input_decls(prog))
     n = 4 if tier == "quick" else 10
     vals = draw(gen.valuations(names, n))
-    return {"prog": prog, "opts": draw(gen.print_opts()), "vals": vals,
+    return {"kind": {0: "consumers", 1: "cse"}.get(kind, "scalar"), "prog": prog, "opts": draw(gen.print_opts()), "vals": vals,
             "optimize": draw(st.integers(0, 3)) != 0, "sched": {"seed": draw(st.integers(0, 3))}}
 
 
@@ -47,6 +51,10 @@ def run_case(case):
     if known.active("three-same-signal-sources") and lang.same_type_fanin(prog):
         # open finding F-three-same: not judged, counted
         return {"discard": "excluded:F-three-same", "counters": {"excluded_by:F-three-same": 1}}
+    if known.active("shared-network-leak") and lang.shared_source_shape(prog):
+        # open finding F-leak: the CSE-bait generator is not built on the exclusive/shared naming discipline, and an
+        # alias of a shared name escapes it
+        return {"discard": "excluded:F-leak", "counters": {"excluded_by:F-leak": 1}}
     text, res = common.compile_case(case)
     if not res.accepted:
         return common.reject_result(res)
